@@ -365,6 +365,7 @@ class AsyncClient(base_client.BaseClient):
                 self.logger.warning(
                     'WebSocket upgrade failed: unexpected recv exception: %s',
                     str(e))
+                await ws.close()
                 return False
             try:
                 pkt = packet.Packet(encoded_packet=p)
@@ -374,6 +375,9 @@ class AsyncClient(base_client.BaseClient):
                     pkt.data != 'probe':
                 self.logger.warning(
                     'WebSocket upgrade failed: no PONG packet')
+                # let the server know that this upgrade was abandoned, so
+                # that it resumes the polling transport
+                await ws.close()
                 return False
             p = packet.Packet(packet.UPGRADE).encode()
             try:
